@@ -225,6 +225,8 @@ func TestParseUnfinishedResumed(t *testing.T) {
 		"create y [append]",
 		"write y +2 (append)",
 		"write x +1000 (append)",
+		"fsync-start x",
+		"fsync-start y",
 		"fsync y",
 		"fsync x",
 	)
@@ -378,10 +380,11 @@ func TestParseKilled(t *testing.T) {
 		t.Fatalf("unfinished=%d skipped=%d failed=%d %q", tr.UnfinishedCalls, tr.SkippedLines, tr.FailedCalls, tr.Errors)
 	}
 	got := eventStrings(tr)
-	if len(got) != 5 || got[0] != "create k" {
+	// the unfinished fsync of file k announces itself with an fsync-start event
+	if len(got) != 6 || got[0] != "create k" || got[1] != "fsync-start k" {
 		t.Fatalf("events: %q", got)
 	}
-	for _, s := range got[1:] {
+	for _, s := range got[2:] {
 		if !strings.HasPrefix(s, "unsupported: ") || !strings.Contains(s, "unknown outcome") {
 			t.Errorf("event %q", s)
 		}
